@@ -102,7 +102,9 @@ class Executor(ResolutionContext):
             disable_introspection=disable_introspection,
             middlewares=middlewares,
         )
-        self.instrumentation = instrumentation or Instrumentation()
+        self.instrumentation = (
+            Instrumentation() if instrumentation is None else instrumentation
+        )
         self.runtime = runtime or BlockingRuntime()
         self._default_resolver = schema.default_resolver or default_resolver
 
